@@ -10,3 +10,7 @@ package params
 //@ pred kvUnchanged() = $kvHas == old($kvHas) && $kvVal == old($kvVal)
 //@ // nothing but the entry (st, key) changed
 //@ pred kvOnlyChanged(st, key) = forall s: str, q: str :: {$kvHas[s][q]} !(s == st && q == key) ==> $kvHas[s][q] == old($kvHas[s][q]) && $kvVal[s][q] == old($kvVal[s][q])
+//@ // no existing account was replaced or altered; at most new base accounts were created by x/bank for recipients without account
+//@ pred existingAccountsUntouched() = forall a: str :: {$accTag[a]} old($accTag[a]) != 0 ==>
+//@   $accTag[a] == old($accTag[a]) && $accNum[a] == old($accNum[a]) && $accSeq[a] == old($accSeq[a]) && $accPub[a] == old($accPub[a])
+//@   && $accOV[a] == old($accOV[a]) && $accDF[a] == old($accDF[a]) && $accDV[a] == old($accDV[a]) && $accStart[a] == old($accStart[a]) && $accEnd[a] == old($accEnd[a])
